@@ -322,3 +322,25 @@ Definition tet_ok (tet : list vecQ) : bool :=
                         && Qle_bool (-(34 # 100)) (dotQ t t0) && Qle_bool (dotQ t t0) (-(33 # 100))) [t1; t2; t3]
   | _ => false
   end.
+
+(* ------------------------------------------------------------------ what the theorems need from the other tables (decided on Gen/Valence.v) *)
+(* an element is selected by default iff its group is 13..16; a selected element has group - 10 valence
+   electrons and a positive covalent radius *)
+Definition row_ok (r : N * option Z * option Z * option Q * bool) : bool :=
+  let '(z, g, ve, cov, s) := r in
+  Bool.eqb s (match g with Some gz => (13 <=? gz)%Z && (gz <=? 16)%Z | None => false end)
+  && (if s then match g, ve, cov with
+                | Some gz, Some v, Some rq => (v =? gz - 10)%Z && negb (Qle_bool rq 0)
+                | _, _, _ => false
+                end
+      else true).
+Definition elements_ok : bool := forallb row_ok elements.
+(* IMPLICIT_VALENCE[group] is what the count formula gives for a neutral closed-shell atom without bonds *)
+Definition iv_ok : bool :=
+  forallb (fun p => match find (fun q => Z.eqb (fst q) (fst p)) implicit_valence with
+                    | Some (_, iv) => Z.eqb (count_spec (mkHenv (snd p) 0 0 0)) iv
+                    | None => false
+                    end) valence_electrons.
+(* no bond type has a negative order of its own *)
+Definition orders_ok : bool :=
+  forallb (fun p => match snd p with OConst q => Qle_bool 0 q | OFrac => true end) bond_orders.
